@@ -188,10 +188,10 @@ def unit_trxn_add(twin=False):
     nsite = 0
     for path in sorted(glob.glob(os.path.join(REPO, "src/phreeqcpp/*.cpp"))):
         rel = os.path.relpath(path, REPO)
-        txt = src(rel).decode("latin1")
-        for m in re.finditer(r"count_trxn\s*=\s*0\s*;\s*(?:/\*.*?\*/\s*)*(trxn_add(?:_phase)?)\s*\(([^;]*?),\s*([^,;]*?),\s*(\w+)\s*\)\s*;", txt, re.S):
+        txt = A.squeeze(src(rel).decode("latin1"))        # comment- and blank-free text: linear-time match, insensitive to re-formatting
+        for k_site, m in enumerate(re.finditer(r"count_trxn=0;(trxn_add(?:_phase)?)\(([^;]*?),([^,;]*?),(\w+)\);", txt)):
             nsite += 1
-            put(r, "callers.first_addition_into_an_empty_work_reaction_has_multiple_1[%s:%d]" % (rel.split("/")[-1], txt.count("\n", 0, m.start()) + 1),
+            put(r, "callers.first_addition_into_an_empty_work_reaction_has_multiple_1[%s#%d]" % (rel.split("/")[-1], k_site),
                 m.group(3).strip() in ("1.0", "1", "1.0e0"), m.group(3), kind="structural", backend="syntactic")
     put(r, "reach.call_sites", nsite >= 8, "%d" % nsite, kind="vacuity", undecided=True)
     r.assumptions += ["CReaction::Get_logk/Get_dz return the arrays of the source reaction", "doubles as reals", "trxn_combine (sorting, merging like terms) is not under this contract",
